@@ -3146,13 +3146,18 @@ class QuicConnection:
                         discarded.add(stream)
                         continue
 
-                    if stream.receiver.stop_pending:
+                    if stream.receiver.stop_pending and not stream.is_blocked:
                         # STOP_SENDING
                         self._write_stop_sending_frame(builder=builder, stream=stream)
 
                     if stream.sender.reset_pending:
-                        # RESET_STREAM
-                        self._write_reset_stream_frame(builder=builder, stream=stream)
+                        # RESET_STREAM, unless the stream is still beyond the
+                        # peer's stream-count limit: nothing was sent on it yet
+                        # and any frame would open it
+                        if not stream.is_blocked:
+                            self._write_reset_stream_frame(
+                                builder=builder, stream=stream
+                            )
                     elif not stream.is_blocked and not stream.sender.buffer_is_empty:
                         # STREAM
                         used = self._write_stream_frame(
